@@ -59,7 +59,12 @@ inline std::vector<long> shape_vec(const S& s) {
 
 template <class E>
 inline vj::value elem_value(const E& x) {
-    if constexpr (std::is_floating_point_v<E>) return vj::value((double)x);
+    if constexpr (std::is_floating_point_v<E>) {
+        // integral values travel as integers (exact for the specification); anything else as an opaque token
+        double d = (double)x;
+        if (d == (double)(long long)d && d > -1e9 && d < 1e9) return vj::value((long long)d);
+        char buf[64]; snprintf(buf, sizeof buf, "f:%.9g", d); return vj::value(std::string(buf));
+    }
     else if constexpr (std::is_same_v<E, bool>) return vj::value((long)(x ? 1 : 0));
     else return vj::value((long long)x);
 }
